@@ -172,6 +172,7 @@ struct Plan
   bool est = true, std_ = true, varz = false, block = false;
   int xvEst = 1, xvStd = 1, xvVarz = 0;
   int nbsimu = 1, nfact = 1, operMorpho = 0, statOper = 0, distType = 1, smoothType = 1, iech0 = 0;
+  bool cleanIn = false; // no undefined value and no selection in dbin (kribayes/simbayes read out of bounds otherwise)
   bool cond = true, flagStd = false, flagCst = true, fill = false, inter = false, ball = false, priorGiven = false;
   std::vector<std::string> znames, migNames;
 };
@@ -217,7 +218,7 @@ static Plan makePlan(const Case& c)
   // drift
   p.driftOrder = -1;
   if (krigFam || k == K_SIMTUB) p.driftOrder = (c.drift % 3) - 1; // -1 (simple), 0, 1
-  if (inSet(k, {K_KRIBAYES, K_SIMBAYES})) { p.driftOrder = c.drift % 2; p.neighType = 0; }
+  if (inSet(k, {K_KRIBAYES, K_SIMBAYES})) { p.driftOrder = c.drift % 2; p.neighType = 0; p.cleanIn = true; }
   if (k == K_KRIGDGM) p.driftOrder = -1;
   if (p.nfex > 0 && p.driftOrder < 0) p.driftOrder = 0;
   // options
@@ -438,7 +439,7 @@ static Objs build(const Case& c, const Plan& p, int mode)
     {
       double v = hval(c.vseed, 10 + iv, e);
       if (p.calc == K_MORPHO) v = (hsh(c.vseed, 10, e) % 2) ? 1. : 0.;
-      if (allowNA && c.naPct > 0 && e >= 5 && (int)(hsh(c.vseed, 50 + iv, e) % 100) < c.naPct) v = TEST;
+      if (allowNA && !p.cleanIn && c.naPct > 0 && e >= 5 && (int)(hsh(c.vseed, 50 + iv, e) % 100) < c.naPct) v = TEST;
       s.v.push_back(v);
     }
     return s;
@@ -508,7 +509,7 @@ static Objs build(const Case& c, const Plan& p, int mode)
         for (int e = 0; e < nech; e++) s.v.push_back(hval(c.vseed, 30 + k, e));
         cols.push_back(s);
       }
-      if (c.inSel > 0 || mode == M_EMPTY_SEL_IN) cols.push_back(selcol(c.inSel, nech, 5, mode == M_EMPTY_SEL_IN));
+      if ((c.inSel > 0 && !p.cleanIn) || mode == M_EMPTY_SEL_IN) cols.push_back(selcol(c.inSel, nech, 5, mode == M_EMPTY_SEL_IN));
       if (!p.twoDb) collisions(cols, nech);
       o.in.reset(makePointDb(nech, cols));
     }
@@ -708,11 +709,12 @@ static std::vector<int> applicableModes(const Plan& p)
 {
   std::vector<int> m; int k = p.calc;
   bool krigFam = inSet(k, {K_KRIGING, K_KRIBAYES, K_XVALID, K_TESTNEIGH, K_KRIGTEST, K_KRIGDGM});
-  if (p.needModel) { m.push_back(M_MODEL_NDIM); m.push_back(M_NO_COVA); if (k != K_SIMFFT || true) m.push_back(M_MODEL_NVAR); }
+  // without dbin the space dimension of dbout is never compared with the Model's (simfft then runs away): not generated
+  if (p.needModel) { if (p.hasIn) m.push_back(M_MODEL_NDIM); m.push_back(M_NO_COVA); m.push_back(M_MODEL_NVAR); }
   if (p.needNeigh && p.neighType != 2) m.push_back(M_NEIGH_NDIM);
   if (p.hasIn && !inSet(k, {K_MIGRATE, K_MIGMULTI, K_MIGATT})) m.push_back(M_NO_Z);
   if (krigFam || inSet(k, {K_MOVAVE, K_MOVMED, K_LSTSQR})) m.push_back(M_NMINI);
-  if (krigFam || inSet(k, {K_SIMTUB, K_SIMBAYES})) { if (p.hasIn) m.push_back(M_EMPTY_SEL_IN); }
+  if ((krigFam || k == K_SIMTUB) && p.hasIn && !p.cleanIn) m.push_back(M_EMPTY_SEL_IN);
   if (p.twoDb && p.hasIn) { m.push_back(M_EMPTY_SEL_OUT); if (k != K_G2GSHRINK) m.push_back(M_DBOUT_NDIM); }
   if (k == K_KRIGING) { if (!p.outGrid) m.push_back(M_BLOCK_ON_POINT); else m.push_back(M_BAD_NDISCS); m.push_back(M_NEIGH_IMAGE); }
   if (p.nfex > 0) m.push_back(M_NFEX_MISSING);
@@ -809,6 +811,8 @@ struct Sink
   explicit Sink(Ctx& c) : ctx(c) {}
   void fail(const std::string& key, const std::string& msg)
   {
+    // development aid: C19_SURVEY=<file> lists every failure (key | message) instead of stopping at the first one
+    if (const char* sv = getenv("C19_SURVEY")) { FILE* f = fopen(sv, "a"); if (f) { fprintf(f, "%s | %s\n", key.c_str(), msg.c_str()); fclose(f); } return; }
     if (isExcluded(key)) { if (firstKnown.empty()) { firstKnown = key; firstKnownMsg = msg; } ctx.label("known:" + key); return; }
     nfail++;
     ctx.fail(key, msg);
@@ -897,9 +901,10 @@ static bool expectSuccess(const Full& a, const Full& b, const Plan& p, bool exac
   return ok;
 }
 
+static void dbgMsg(const char* m) { diag(std::string("  lib: ") + m); }
 struct Guard
 {
-  Guard() { VerifHooks::disarm(); VerifHooks::resetCounters(); OptDbg::reset(); }
+  Guard() { if (getenv("C19_DEBUG")) { redefine_error(dbgMsg); if (getenv("C19_DEBUG")[0] == '2') redefine_message(dbgMsg); } VerifHooks::disarm(); VerifHooks::resetCounters(); OptDbg::reset(); }
   ~Guard() { VerifHooks::disarm(); }
 };
 
@@ -973,6 +978,7 @@ static void runSuccess(const Case& c, Ctx& ctx)
   if (ret != 0)
   {
     ctx.label("valid-rejected:" + cn);
+    if (getenv("C19_DEBUG")) diag("valid-rejected " + cn + "\n" + toText(c));
     expectUntouched(before, after, cn + ":rejected", sk);
   }
   else
@@ -999,6 +1005,7 @@ static void runNatural(const Case& c, Ctx& ctx)
   int mode = modes[(size_t)(((c.mode % (int)modes.size()) + (int)modes.size()) % (int)modes.size())];
   std::string prefix = cn + ":" + kModeName[mode];
   ctx.label("mode:" + std::string(kModeName[mode])); ctx.at(prefix);
+  if (getenv("C19_DEBUG")) diag("natural " + prefix);
   Ref ref;
   Objs o = build(c, p, mode); View v = viewOf(o, p);
   Full before = snapAll(v);
@@ -1016,7 +1023,8 @@ static void runNatural(const Case& c, Ctx& ctx)
   else
   {
     ctx.label("accepted:" + std::string(kModeName[mode]));
-    expectSuccess(before, after, p, false, prefix + ":accepted", sk);
+    // the argument was accepted after all: the success rule applies (without the exact list of new variables)
+    expectSuccess(before, after, p, false, cn + ":success", sk);
   }
   ctx.sig = sigOf(p, c, mode);
   sk.finish();
@@ -1069,7 +1077,17 @@ static void runInject(const Case& c, Ctx& ctx)
   sk.finish();
 }
 
+// natural / inject: the calculators with many stages, temporaries and role changes are drawn more often
+static Case genCaseWeighted()
+{
+  Case c = genCase();
+  static const std::vector<int> w = {K_KRIGING, K_KRIGING, K_KRIGING, K_KRIGING, K_KRIGING, K_KRIGDGM, K_KRIGDGM, K_KRIGDGM, K_SIMTUB, K_SIMTUB,
+                                     K_SIMTUB, K_SIMBAYES, K_KRIGTEST, K_KRIGTEST, K_XVALID, K_KRIBAYES, K_TESTNEIGH, K_G2GSHRINK, K_KRIMAGE};
+  if (G::pct(45)) c.calc = G::pickv(w);
+  if (c.calc == K_KRIGING || c.calc == K_SIMTUB) c.nfex = G::pct(55) ? 1 : 0;
+  return c;
+}
 VERIF_SUB(success, Case, genCase, runSuccess);
-VERIF_SUB(natural, Case, genCase, runNatural);
-VERIF_SUB(inject, Case, genCase, runInject);
+VERIF_SUB(natural, Case, genCaseWeighted, runNatural);
+VERIF_SUB(inject, Case, genCaseWeighted, runInject);
 VERIF_MAIN()
